@@ -804,4 +804,118 @@ Section NInv.
     destruct Hsrc as [Hsrc|HB]; [left|right; exact HB].
     exact (Agree_adopt (llog s) T k (l_log (ln s n)) (llog s t) m Hold Hsrc Hnp Hm).
   Qed.
+  (* a log that is a prefix-path of the old leader logs cannot contain the entry being appended *)
+  Lemma no_agree_new (lg lg' : N -> list ent) t L' X :
+    good lg X -> (length (lg t) < length L')%nat -> lg' t = L' -> term_at L' (length L') = t ->
+    ~ Agree lg' t (length L') X.
+  Proof.
+    intros HX Hlen El Et [H1 H2]. rewrite El, firstn_all in H2.
+    assert (Ek : term_at X (length L') = t).
+    { rewrite <- Et. apply term_at_firstn_eq. rewrite H2, firstn_all. reflexivity. }
+    destruct (HX (length L')) as [Hc _]; [lia|]. rewrite Ek in Hc. lia.
+  Qed.
+
+  (* a leader (new or old) appends an entry of its term *)
+  Lemma NInv_append s l s' c en :
+    let L := l_log (ln s c) in
+    let t := eterm en in
+    lreachable s -> lrule l s = Some s' -> NInv s ->
+    s' = set_llog (set_ln (set_el s (el s')) c (with_log (ln s c) (L ++ [en]))) t (L ++ [en]) ->
+    (llog s t = L \/ llog s t = []) ->
+    (forall q c0 t0, c0 <> 0 -> Vote (el s') q c0 t0 -> Vote (el s) q c0 t0) ->
+    (forall T k, own (llog s) T k -> T < t -> Agree (llog s) T k L \/ Block s' T k) ->
+    NInv s'.
+  Proof.
+    intros L t Hr Hstep HN Es' Hlt HVote Hnew.
+    pose proof (lreachable_LInv inc out inc_nonempty Hmulti s Hr) as HL.
+    pose proof (lreachable_EInv inc out inc_nonempty Hmulti s Hr) as HE.
+    pose proof (llog_grows inc out inc_nonempty Hmulti s l s' Hr HL Hstep) as Hgr.
+    pose proof (reachable_Inv inc out _ (lreachable_el _ _ _ Hr)) as HIe.
+    set (L' := L ++ [en]) in *.
+    assert (Elt : llog s' t = L') by (rewrite Es'; cbn; rewrite N.eqb_refl; reflexivity).
+    assert (Elo : forall u, u <> t -> llog s' u = llog s u).
+    { intros u Hu. rewrite Es'. cbn. apply N.eqb_neq in Hu. rewrite Hu. reflexivity. }
+    assert (Hlen : (length (llog s t) <= length L)%nat) by (destruct Hlt as [->| ->]; cbn; lia).
+    assert (HlenL' : length L' = S (length L)) by (unfold L'; rewrite app_length; cbn; lia).
+    assert (EtL' : term_at L' (length L') = t) by (rewrite HlenL'; apply term_at_app_last).
+    assert (Eln : forall q, ln s' q = if q =? c then with_log (ln s c) L' else ln s q) by (intros; rewrite Es'; reflexivity).
+    assert (Eacks : forall q, l_acks (ln s' q) = l_acks (ln s q)).
+    { intros q. rewrite Eln. destruct (N.eqb_spec q c) as [->|]; reflexivity. }
+    assert (Edlog : forall q, l_dlog (ln s' q) = l_dlog (ln s q)).
+    { intros q. rewrite Eln. destruct (N.eqb_spec q c) as [->|]; reflexivity. }
+    assert (Eimgs : forall q, l_imgs (ln s' q) = l_imgs (ln s q)).
+    { intros q. rewrite Eln. destruct (N.eqb_spec q c) as [->|]; reflexivity. }
+    assert (Eacked : acked s' = acked s) by (rewrite Es'; reflexivity).
+    assert (Eclog : clog s' = clog s) by (rewrite Es'; reflexivity).
+    assert (Hprom : forall q T k, promised s' q T k -> promised s q T k).
+    { intros q T k. unfold promised. rewrite Eacked, Eacks. auto. }
+    assert (Hpb : forall q T k, promised s q T k -> (k <= length (llog s T))%nat).
+    { intros q T k [HP|(i & Hi & HP)]; [pose proof (e_acked s HE q T); lia|].
+      pose proof (e_acks s HE q T i HP). lia. }
+    assert (HB : forall T k, Block s T k -> Block s' T k) by (intros; eapply Block_step; eassumption).
+    (* classification of the own-term indexes of the new state *)
+    assert (Hown : forall T k, own (llog s') T k ->
+              (own (llog s) T k /\ (k <= length (llog s T))%nat) \/ (T = t /\ k = length L')).
+    { intros T k Ho. destruct (le_lt_dec k (length (llog s T))) as [Hk|Hk].
+      - left. split; [eapply own_shrinks; eassumption|exact Hk].
+      - right. destruct (N.eq_dec T t) as [->|Hne]; [|unfold own in Ho; rewrite (Elo T Hne) in Ho; destruct Ho as [[_ Ho] _]; lia].
+        split; [reflexivity|]. destruct Ho as [[Hk1 Hk2] Ht]. rewrite Elt in Hk2, Ht.
+        destruct (Nat.eq_dec k (length L')) as [Ek|Nk]; [exact Ek|exfalso].
+        assert (HkL : (k <= length L)%nat) by lia.
+        unfold L' in Ht. rewrite term_at_app_l in Ht by exact HkL.
+        destruct (li_Dlog s HL c k) as [Hc _]; [fold L; lia|]. fold L in Hc. rewrite Ht in Hc. lia. }
+    assert (Hnoagree : forall X, good (llog s) X -> ~ Agree (llog s') t (length L') X).
+    { intros X HX. apply no_agree_new with (lg := llog s); [exact HX|lia|exact Elt|exact EtL']. }
+    assert (Hnoprom : forall q, ~ promised s' q t (length L')).
+    { intros q HP. apply Hprom, Hpb in HP. lia. }
+    (* leaders of later terms already elected block the new index *)
+    assert (Hblock : forall t0, t < t0 -> llog s t0 <> [] -> Block s' t (length L')).
+    { intros t0 Ht0 Hne. destruct (li_C1 s HL t0 Hne) as [c0 Hc0].
+      destruct (inv_leader _ _ _ HIe _ _ Hc0) as (Q & HQ & HQv). exists Q. split; [exact HQ|].
+      intros z Hz. split; [|apply Hnoprom].
+      assert (Hv : exists c1, voted (el s) z t0 = Some c1).
+      { destruct (HQv z Hz) as [->|Hv]; [|eauto]. exists c0.
+        apply (leader_vote_durable inc out Hmulti (el s)); [apply lreachable_el; exact Hr|exact Hc0]. }
+      destruct Hv as [c1 Hv]. pose proof (voted_le_dterm inc out _ _ _ _ HIe Hv).
+      pose proof (lstep_dterm_mono inc out s l s' z Hr Hstep). lia. }
+    assert (Hag : forall T k X, (k <= length (llog s T))%nat -> Agree (llog s) T k X <-> Agree (llog s') T k X)
+      by (intros; apply Agree_grows; assumption).
+    constructor.
+    - (* leader completeness *)
+      intros T k t0 Ho Ht0 Hne. destruct (Hown T k Ho) as [[Ho0 Hk]|[-> ->]].
+      + destruct (N.eq_dec t0 t) as [->|Hnt].
+        * rewrite Elt. destruct (Hnew T k Ho0 Ht0) as [Ha|Hb]; [left|right; exact Hb].
+          apply Hag; [exact Hk|]. apply Agree_app. exact Ha.
+        * rewrite (Elo t0 Hnt) in *. destruct (n_lead s HN T k t0 Ho0 Ht0 Hne) as [Ha|Hb]; [left|right; auto].
+          apply Hag; assumption.
+      + right. assert (Hnt : t0 <> t) by lia. rewrite (Elo t0 Hnt) in Hne. eapply Hblock; eassumption.
+    - (* votes *)
+      intros T k q c0 t0 Ho Ht0 HP HV Hc0. destruct (Hown T k Ho) as [[Ho0 Hk]|[-> ->]].
+      + rewrite Eclog. destruct (n_vote s HN T k q c0 t0 Ho0 Ht0 (Hprom _ _ _ HP) (HVote _ _ _ Hc0 HV) Hc0) as [Ha|Hb];
+          [left; apply Hag; assumption|right; auto].
+      + exfalso. eapply Hnoprom; exact HP.
+    - (* created acknowledgements *)
+      intros T k q i Ho Hi Hin. destruct (Hown T k Ho) as [[Ho0 Hk]|[-> ->]].
+      + rewrite Eacks in Hin. destruct (n_created s HN T k q i Ho0 Hi Hin) as [Ha|Hb]; [left|right; auto].
+        apply Hag; [exact Hk|]. rewrite Eln. destruct (N.eqb_spec q c) as [->|Hne]; [|exact Ha].
+        cbn. apply Agree_app. exact Ha.
+      + exfalso. apply (Hnoprom q). right. exists i. split; [exact Hi|exact Hin].
+    - (* released acknowledgements *)
+      intros T k q Ho Hk0. destruct (Hown T k Ho) as [[Ho0 Hk]|[-> ->]].
+      + rewrite Eacked in Hk0. rewrite Edlog.
+        destruct (n_acked s HN T k q Ho0 Hk0) as [Ha|Hb]; [left; apply Hag; assumption|right; auto].
+      + exfalso. apply (Hnoprom q). left. exact Hk0.
+    - (* persistence sequences *)
+      intros T k q Ho. unfold Seq. rewrite Edlog, Eimgs. destruct (Hown T k Ho) as [[Ho0 Hk]|[-> ->]].
+      + apply seq_ok_ext with (P := Agree (llog s) T k) (B := Block s T k); [intros X; apply Hag; exact Hk|apply HB|].
+        rewrite Eln. destruct (N.eqb_spec q c) as [->|Hne]; [|apply (n_seq s HN T k q Ho0)].
+        cbn [with_log l_log]. eapply seq_ok_replace_last; [apply (n_seq s HN T k c Ho0)|].
+        intros Ha. left. apply Agree_app. exact Ha.
+      + rewrite Eln. destruct (N.eqb_spec q c) as [->|Hne].
+        * cbn [with_log l_log]. apply seq_ok_none_last. intros X [<-|HX]; apply Hnoagree;
+            [apply (li_Ddlog s HL)|eapply (li_Dimg s HL); exact HX].
+        * apply seq_ok_none. intros X HX. apply Hnoagree. apply in_app_iff in HX.
+          destruct HX as [[<-|HX]|[<-|[]]];
+            [apply (li_Ddlog s HL)|eapply (li_Dimg s HL); exact HX|apply (li_Dlog s HL)].
+  Qed.
 End NInv.
